@@ -293,6 +293,16 @@ def run(ck):
                     ck.violation("C19.R3", "extract_refbasis_samples:rows whose basis is all Z", ex.site(), "rows with ANY site in Z are kept (must be ALL sites)")
                 else:
                     ck.undecided("C19.R3", "extract_refbasis_samples:rows whose basis is all Z", ex.site(), msg)
+    # ------------------------------------------------------------------ R4 history independence of the enumeration
+    from .history import check_history
+
+    for cls in ("PositiveWaveFunction", "ComplexWaveFunction", "DensityMatrix"):
+        def mk(it, cls=cls):
+            return (make_state(it, cls),)
+
+        check_history(ck, "C19.R4", cls + ".generate_hilbert_space(n)", ghs.site(), mk, lambda it, c: call(it, c[0], "generate_hilbert_space", api.intsym("n")), inputs=False)
+        check_history(ck, "C19.R4", cls + ".generate_hilbert_space()", ghs.site(), mk, lambda it, c: call(it, c[0], "generate_hilbert_space"), inputs=False)
+    ck.require_min("C19.R4", 6)
     ck.require_min("C19.R1", 9)
     ck.require_min("C19.R2", 4)
     ck.require_min("C19.R3", 14)
